@@ -53,7 +53,11 @@ func events(c *Ctx, fn *ssa.Function) map[string][]ssa.Instruction {
 				var k string
 				switch x := in.(type) {
 				case *ssa.Store:
-					k = sig(x.Addr.(*ssa.FieldAddr).X, x.Val)
+					if fa, ok := x.Addr.(*ssa.FieldAddr); ok {
+						k = sig(fa.X, x.Val)
+					} else if ia, ok := x.Addr.(*ssa.IndexAddr); ok {
+						k = sig(ia.X, x.Val)
+					}
 				case *ssa.MapUpdate:
 					k = sig(x.Map, x.Key)
 				case *ssa.Call:
@@ -629,6 +633,45 @@ func storeName(in ssa.Instruction) string {
 	if !ok {
 		return ""
 	}
+	// an element of a slice that was not made here: x[i] = v writes memory someone else holds
+	if ia, ok := st.Addr.(*ssa.IndexAddr); ok {
+		if _, isSlice := ia.X.Type().Underlying().(*types.Slice); !isSlice {
+			return ""
+		}
+		for v, i := ia.X, 0; i < 6; i++ {
+			switch x := v.(type) {
+			case *ssa.MakeSlice, *ssa.Alloc:
+				return ""
+			case *ssa.Slice:
+				v = x.X
+				continue
+			case *ssa.Phi:
+				allLocal := true
+				for _, e := range x.Edges {
+					switch e.(type) {
+					case *ssa.MakeSlice:
+					default:
+						if c, ok := e.(*ssa.Call); ok {
+							if b, ok := c.Call.Value.(*ssa.Builtin); ok && b.Name() == "append" {
+								continue
+							}
+						}
+						allLocal = false
+					}
+				}
+				if allLocal {
+					return ""
+				}
+			case *ssa.Call:
+				if b, ok := x.Call.Value.(*ssa.Builtin); ok && b.Name() == "append" {
+					v = x.Call.Args[0]
+					continue
+				}
+			}
+			break
+		}
+		return "elemstore " + shortType(ia.X.Type())
+	}
 	fa, ok := st.Addr.(*ssa.FieldAddr)
 	if !ok {
 		return ""
@@ -678,7 +721,11 @@ func directCalleeCounts(c *Ctx, fn *ssa.Function, out map[string]bool, counts ma
 					}
 					switch x := in.(type) {
 					case *ssa.Store:
-						bump(n, describeVal(x.Addr.(*ssa.FieldAddr).X, 0))
+						if fa, ok := x.Addr.(*ssa.FieldAddr); ok {
+							bump(n, describeVal(fa.X, 0))
+						} else if ia, ok := x.Addr.(*ssa.IndexAddr); ok {
+							bump(n, describeVal(ia.X, 0))
+						}
 					case *ssa.MapUpdate:
 						bump(n, describeVal(x.Map, 0))
 					case *ssa.Call:
@@ -921,11 +968,17 @@ func (c *Ctx) ruleOrderRatchet(rule string, pkgs []string, fileFilter func(file 
 				recordedEv[pr[i+4:]] = true
 			}
 		}
+		// aligned when the function performs the same number of events; an edge is judged when both of its classes
+		// are still there (a class whose arguments are now derived differently has another signature and is skipped)
 		sameEvents := true
+		present := 0
 		for e := range recordedEv {
-			if _, ok := uc[e]; !ok {
-				sameEvents = false
+			if _, ok := uc[e]; ok {
+				present++
 			}
+		}
+		if present*2 < len(recordedEv) {
+			sameEvents = false // most steps look different: not the same function any more
 		}
 		if !sameEvents || countEvents(uc) != bs.NEvents {
 			r.Add(oblT(rule, bs.Func, cons, bs.File, "ok", "the function's calls and stores changed: not decided", nil, true))
